@@ -131,11 +131,28 @@ def addNew (acc : List (Nat × FState)) (s : FState) : List (Nat × FState) :=
 
 def dedup (l : List FState) : List FState := (l.foldl addNew []).map Prod.snd
 
-def exploreSet (quantum : Nat) : List FState → Nat → Bool
-  | F, 0 => F.all FState.goal
+/-- breadth-first exploration towards an arbitrary target predicate -/
+def exploreSetP (target : FState → Bool) (quantum : Nat) : List FState → Nat → Bool
+  | F, 0 => F.all target
   | F, f + 1 =>
-    (F.filter (fun s => !s.goal)).isEmpty ||
-    exploreSet quantum (dedup ((F.filter (fun s => !s.goal)).flatMap (fun s => s.succs quantum))) f
+    (F.filter (fun s => !target s)).isEmpty ||
+    exploreSetP target quantum (dedup ((F.filter (fun s => !target s)).flatMap (fun s => s.succs quantum))) f
+
+def exploreSet (quantum : Nat) : List FState → Nat → Bool := exploreSetP FState.goal quantum
+
+/-- follow one fault-free execution: at each step deliver the pending message with the given position
+(or take the idle step when nothing is pending) -/
+def FState.follow (s : FState) (quantum : Nat) : List Nat → FState
+  | [] => s
+  | c :: cs =>
+    match s.pending[c]? with
+    | some m => (s.deliver m).follow quantum cs
+    | none => (s.idle quantum).follow quantum cs
+
+/-- FState view of a cluster state of the adversarial model with nothing in flight (every message
+sent so far counts as lost) -/
+def FState.ofGlobal (g : Global) (todo : List Nat) : FState :=
+  { nodes := g.nodes, now := g.now, pending := [], todo, done := [] }
 
 def FState.init (size ef hb tt : Nat) (v : Variant) (todo : List Nat) : FState :=
   { nodes := (Global.init size ef hb tt v).nodes, now := 0, pending := [], todo, done := [] }
@@ -146,5 +163,10 @@ def frontierSizes (quantum : Nat) : List FState → Nat → List Nat
   | F, f + 1 =>
     if (F.filter (fun s => !s.goal)).isEmpty then [F.length] else
     F.length :: frontierSizes quantum (dedup ((F.filter (fun s => !s.goal)).flatMap (fun s => s.succs quantum))) f
+
+/-- the frontier after `f` levels (diagnostics only) -/
+def frontierAfter (quantum : Nat) : List FState → Nat → List FState
+  | F, 0 => F
+  | F, f + 1 => frontierAfter quantum (dedup ((F.filter (fun s => !s.goal)).flatMap (fun s => s.succs quantum))) f
 
 end Raft
